@@ -8,9 +8,13 @@ a struct field exactly when `specLooksAt` says so for its dotted path (ancestors
 and compares floats with the precision the options give. `mustCheck_spec`: the decision function of options.go
 is that reading. `unlooked_field_never_matters`: a struct field the options do not look at never decides the
 answer, whatever the two (well-typed) values in it are — nil-ness of a pointer included.
-The model of the current tree differs on the class `deq-nil-before-mustcheck` (`repo_not_correct`).
+The model of the current tree differs on the class `deq-nil-before-mustcheck` (`repo_not_correct`) — that is the
+tree at the pinned commit (`GenCfg.original`). `section CurrentTree`: `GenCfg.repo` has every switch DeepEqual reads
+off (Proofs/DEQCurrent.lean), so the theorems hold of the emitter as it stands: `deq_options_current`,
+`deq_options_symmetric_current`, `unlooked_field_never_matters_current`.
 -/
 import InspectorModel.Proofs.DEQSym
+import InspectorModel.Proofs.DEQCurrent
 namespace Inspector.C11
 
 /-! ### The decision function (options.go:14-27), exhaustively -/
@@ -132,15 +136,15 @@ outside its `DEQMustCheck` wrapper, so with `P` excluded the current tree still 
 difference in the nil-ness of `P`. -/
 theorem repo_not_correct :
     deqAccepts (eqS { opts := excl ["P"] } exNode "" v0 vNil)
-      (deqM { cfg := GenCfg.repo, opts := excl ["P"] } exNode .ptr .ptr v0 vNil) = false := by
+      (deqM { cfg := GenCfg.original, opts := excl ["P"] } exNode .ptr .ptr v0 vNil) = false := by
   decide
 example : eqS { opts := excl ["P"] } exNode "" v0 vNil = .must ∧
-    deqM { cfg := GenCfg.repo, opts := excl ["P"] } exNode .ptr .ptr v0 vNil = .f ∧
+    deqM { cfg := GenCfg.original, opts := excl ["P"] } exNode .ptr .ptr v0 vNil = .f ∧
     deqM { cfg := GenCfg.fixed, opts := excl ["P"] } exNode .ptr .ptr v0 vNil = .t := by decide
 /-- The same with a filter that does not list `P`. -/
 theorem repo_not_correct_filter :
     deqAccepts (eqS { opts := filt ["A"] } exNode "" v0 vNil)
-      (deqM { cfg := GenCfg.repo, opts := filt ["A"] } exNode .ptr .ptr v0 vNil) = false := by
+      (deqM { cfg := GenCfg.original, opts := filt ["A"] } exNode .ptr .ptr v0 vNil) = false := by
   decide
 /-- The flag `deqNilBeforeMustCheck` alone is responsible. -/
 theorem repo_not_correct_flag :
@@ -148,5 +152,47 @@ theorem repo_not_correct_flag :
       (deqM { cfg := { GenCfg.fixed with deqNilBeforeMustCheck := true }, opts := excl ["P"] } exNode .ptr .ptr v0 vNil) = false := by
   decide
 end NonVacuity
+
+/-! ### The tree as it is now
+
+No switch that DeepEqual consults (`deqPtrLeafNilUnchecked`, `deqNilBeforeMustCheck`, `nilRootPanics`) is left on
+in `GenCfg.repo`: the model of the current tree *is* the repaired model (`DEQCurrent.deqM_repo`). -/
+section CurrentTree
+open Inspector.DEQCurrent
+
+/-- DeepEqualWithOptions of the current tree is that of the repaired emitter (any environment, any forms). -/
+theorem deqM_repo (env : DeqEnv) (n : Node) (fl fr : Form) (l r : Val) :
+    deqM { env with cfg := GenCfg.repo } n fl fr l r = deqM { env with cfg := GenCfg.fixed } n fl fr l r :=
+  DEQCurrent.deqM_repo env n fl fr l r
+
+/-- C11 for the emitter as it stands: every option set. -/
+theorem deq_options_current (n : Node) (a b : Val) (opts : Option DeqOpts) (ident : Bool)
+    (hroot : RootOK n = true) (hok : EmitOK n = true) (hnames : PathNamesOK n = true)
+    (hwa : WT n a = true) (hwb : WT n b = true) :
+    deqAccepts (eqS { opts := opts, ident := ident } n "" a b)
+      (deqM { cfg := GenCfg.repo, opts := opts, ident := ident } n .ptr .ptr a b) = true := by
+  rw [deqM_repo_mk]; exact deq_options_correct n a b opts ident hroot hok hnames hwa hwb
+
+/-- Options do not disturb symmetry, emitter as it stands. -/
+theorem deq_options_symmetric_current (n : Node) (a b : Val) (opts : Option DeqOpts) (ident : Bool)
+    (hwa : WT n a = true) (hwb : WT n b = true) (hka : MapKeysOK a = true) (hkb : MapKeysOK b = true) :
+    deqM { cfg := GenCfg.repo, opts := opts, ident := ident } n .ptr .ptr a b =
+      deqM { cfg := GenCfg.repo, opts := opts, ident := ident } n .ptr .ptr b a := by
+  rw [deqM_repo_mk, deqM_repo_mk]; exact deq_options_symmetric n a b opts ident hwa hwb hka hkb
+
+/-- Excluded / unlisted fields never matter, emitter as it stands (nil-ness of a pointer field included: the
+class `deq-nil-before-mustcheck` is gone). -/
+theorem unlooked_field_never_matters_current (ch : Node) (l r : Val) (π : String) (opts : Option DeqOpts)
+    (ident : Bool) (hname : ch.name.length > 0) (hok : EmitOK ch = true) (hnames : PathNamesOK ch = true)
+    (hl : WT ch l = true) (hr : WT ch r = true)
+    (hskip : specLooksAt opts (dotted π ch.name) = false) :
+    deqN { cfg := GenCfg.repo, opts := opts, ident := ident } ch true false π l r = .cont := by
+  rw [deqN_repo_mk]; exact unlooked_field_never_matters ch l r π opts ident hname hok hnames hl hr hskip
+
+/-- The witnesses on which the tree at the pinned commit was rejected are accepted now. -/
+example : deqM { cfg := GenCfg.repo, opts := excl ["P"] } exNode .ptr .ptr v0 vNil = .t ∧
+    deqM { cfg := GenCfg.repo, opts := filt ["A"] } exNode .ptr .ptr v0 vNil = .t := by decide
+
+end CurrentTree
 
 end Inspector.C11
